@@ -16,14 +16,14 @@ const NPH: [u64; 7] = [0, 1, 2, 0xfffe, 0xffff, 0x10000, 0x10010];
 
 /// Hand-laid image: ehdr, optional padding, phdr table, section bodies, shdr table (placement
 /// variants). Every header carries a unique tag (sh_addr / p_vaddr = 0xA000_0000 + index).
-struct Img {
-    bytes: Vec<u8>,
-    shoff: u64,
-    phoff: u64,
+pub struct Img {
+    pub bytes: Vec<u8>,
+    pub shoff: u64,
+    pub phoff: u64,
 }
 
 #[derive(Clone, Copy, Debug, PartialEq, Eq)]
-enum Placement {
+pub enum Placement {
     PhThenSh,
     ShThenPh,
     ShAtEof,
@@ -32,15 +32,15 @@ enum Placement {
 const PLACEMENTS: [Placement; 4] = [Placement::PhThenSh, Placement::ShThenPh, Placement::ShAtEof, Placement::ShOnePastEof];
 
 /// The reference writer (Appendix B): how n sections / p program headers / name-table index x are encoded.
-struct Encoding {
-    e_shnum: u64,
-    e_phnum: u64,
-    e_shstrndx: u64,
-    sh0_size: u64,
-    sh0_info: u64,
-    sh0_link: u64,
+pub struct Encoding {
+    pub e_shnum: u64,
+    pub e_phnum: u64,
+    pub e_shstrndx: u64,
+    pub sh0_size: u64,
+    pub sh0_info: u64,
+    pub sh0_link: u64,
 }
-fn reference_encoding(nsec: u64, nph: u64, strndx: u64) -> Encoding {
+pub fn reference_encoding(nsec: u64, nph: u64, strndx: u64) -> Encoding {
     Encoding {
         e_shnum: if nsec >= 0xff00 { 0 } else { nsec },
         e_phnum: if nph >= 0xffff { 0xffff } else { nph },
@@ -51,7 +51,7 @@ fn reference_encoding(nsec: u64, nph: u64, strndx: u64) -> Encoding {
     }
 }
 
-fn make(enc: rl::Enc, nsec: u64, nph: u64, strndx: u64, place: Placement, e: &Encoding, shentsize: u64, phentsize: u64) -> Img {
+pub fn make(enc: rl::Enc, nsec: u64, nph: u64, strndx: u64, place: Placement, e: &Encoding, shentsize: u64, phentsize: u64) -> Img {
     let ehs = layout(Kind::Ehdr, enc.class).size as u64;
     let shs = layout(Kind::Shdr, enc.class).size as u64;
     let phs = layout(Kind::Phdr, enc.class).size as u64;
